@@ -206,12 +206,19 @@ def World.redefine (w : World) (c : Nat) (s' : CState) (drop : Bool) : World :=
     mcaches := if drop then w.mcaches.map fun e => if e.1.1 = c then (e.1, []) else e
                else w.mcaches }
 
+/-- The name-keyed constructors of `CompiledChemicals`: `array`/`kwarray`, `split`/`kwsplit`,
+`iarray`/`ikwarray` (a blank `ChemicalIndexer` — it has no group compositions — written through the
+key) and `isplit` with `order` or a dict (a blank `SplitIndexer` written through the key). -/
+inductive BuildKind where
+  | array | split | iarray | isplit
+  deriving Repr, DecidableEq, Inhabited
+
 inductive Op where
   | compile (specs : List Spec)
   | alias (c : Nat) (id alias : String)
   | group (c : Nat) (name : String) (ids : List String) (comp : Option (List Rat)) (wt : Bool)
-  /-- `chemicals.array(IDs, data)` (`split = false`) / `chemicals.split(IDs, data)` -/
-  | array (c : Nat) (split : Bool) (key : PyKey) (d : Data)
+  /-- `chemicals.array / split / iarray / isplit (IDs, data)` -/
+  | array (c : Nat) (kind : BuildKind) (key : PyKey) (d : Data)
   /-- `indexer.by_mass()[key]` -/
   | getMass (ix : Nat) (key : PyKey)
   /-- `indexer.by_mass()[key] = data` -/
@@ -415,13 +422,29 @@ def tupleKey : PyKey → PyKey
   | k => k
 
 /-- Result of `chemicals.array` / `split` given the resolution of the key. -/
-def arrayOut (c : Chem) (split : Bool) (r : Except Err Ix) (d : Data) : Out :=
+def arrayOut (c : Chem) (kind : BuildKind) (k : HKey) (r : Except Err Ix) (d : Data) : Out :=
   match r with
   | .error e => .err e
   | .ok ix =>
-    match (if split then splitOf c.size ix d else arrayOf c.size ix d) with
-    | .ok row => .val (.vec row)
-    | .error e => .err e
+    match kind with
+    | .array =>
+      match arrayOf c.size ix d with
+      | .ok row => .val (.vec row)
+      | .error e => .err e
+    | .split =>
+      match splitOf c.size ix d with
+      | .ok row => .val (.vec row)
+      | .error e => .err e
+    | .iarray =>
+      -- `group_compositions` does not exist on the base class: `AttributeError`
+      match setIx { c with comps := [] } (zeroRow c.size) ix k d with
+      | .ok row => .val (.vec row)
+      | .error .keyError => .err .typeError
+      | .error e => .err e
+    | .isplit =>
+      match setSplit (zeroRow c.size) ix d with
+      | (row, none) => .val (.vec row)
+      | (_, some e) => .err e
 
 /-- Answer and new data of `by_mass()[key] = data`, given the key resolution. -/
 def massSet (c : Chem) (data : List Row) (v : MIx) (ids : HKey) (d : Data) : List Row × Out :=
@@ -447,7 +470,7 @@ def World.step (w : World) : Op → World × Out
       | .ok chem' =>
         (w.redefine c { s with chem := chem' } (alookup a s.chem.index).isNone,
          .pos ((alookup a chem'.index).getD (.pos 0)))
-  | .array c split key d =>
+  | .array c kind key d =>
     match w.chems[c]? with
     | none => (w, .err .indexError)
     | some s =>
@@ -455,7 +478,7 @@ def World.step (w : World) : Op → World × Out
       | .error e => (w, .err e)
       | .ok k =>
         match s.lookup k with
-        | (r, s') => ({ w with chems := w.chems.set c s' }, arrayOut s.chem split r d)
+        | (r, s') => ({ w with chems := w.chems.set c s' }, arrayOut s.chem kind k r d)
   | .getMass i key =>
     match w.ixs[i]? with
     | none => (w, .err .indexError)
@@ -596,13 +619,13 @@ def PWorld.step (p : PWorld) : Op → PWorld × Out
       match chem.setAlias reservedAll id a with
       | .error e => ({ p with chems := p.chems.set c (chem.setAliasFail reservedAll id a, cas) }, .err e)
       | .ok chem' => ({ p with chems := p.chems.set c (chem', cas) }, .pos ((alookup a chem'.index).getD (.pos 0)))
-  | .array c split key d =>
+  | .array c kind key d =>
     match p.chems[c]? with
     | none => (p, .err .indexError)
     | some (chem, _) =>
       match normC (tupleKey key) with
       | .error e => (p, .err e)
-      | .ok k => (p, arrayOut chem split (resolveC chem k) d)
+      | .ok k => (p, arrayOut chem kind k (resolveC chem k) d)
   | .getMass i key =>
     match p.ixs[i]? with
     | none => (p, .err .indexError)
